@@ -114,12 +114,10 @@ Proof.
   induction l as [|p l IH]; cbn; [split; [constructor | reflexivity]|].
   rewrite andb_true_iff, negb_true_iff, memN_nIn, IH, NoDup_cons_iff. reflexivity.
 Qed.
-Lemma elems_ok_true es : elems_ok es = true ->
-  uniq es /\ (forall e, In e es -> NoDup (e_tags e)) /\ (forall e, In e es -> refs (e_pos e) e = false).
+Lemma elems_ok_true es : elems_ok es = true -> uniq es /\ (forall e, In e es -> NoDup (e_tags e)).
 Proof.
   unfold elems_ok. rewrite andb_true_iff, nodup_posb_true, forallb_forall. intros [H1 H2]. split; [exact H1|].
-  split; intros e He; specialize (H2 e He); unfold elem_ok in H2; apply andb_true_iff in H2 as [H2 H3];
-    [now apply nodup_Nb_true | now apply negb_true_iff].
+  intros e He. apply nodup_Nb_true. exact (H2 e He).
 Qed.
 Lemma find_has_pos_none p l : find (has_pos p) l = None <-> ~ In p (posl l).
 Proof.
